@@ -97,6 +97,9 @@ type pathInfo struct {
 	Blocks []*ssa.BasicBlock
 	Guards []guard
 	Ret    *ssa.Return
+	// Subst binds the parameters of helpers inlined into this path to the caller's arguments;
+	// RetVal, when set, is the slice value the path returns (the helper's result spliced in).
+	Subst map[ssa.Value]ssa.Value
 }
 
 // enumPaths enumerates the acyclic entry→return paths of f (loops are entered at most once
@@ -157,6 +160,12 @@ func (p *pathInfo) phiOn(phi *ssa.Phi) ssa.Value {
 // resolve follows phis (along the path) and trivial conversions that keep the value.
 func (p *pathInfo) resolve(v ssa.Value) ssa.Value {
 	for i := 0; i < 32; i++ {
+		if p != nil && p.Subst != nil {
+			if a, ok := p.Subst[v]; ok {
+				v = a
+				continue
+			}
+		}
 		phi, ok := v.(*ssa.Phi)
 		if !ok || p == nil {
 			return v
@@ -175,6 +184,8 @@ func (p *pathInfo) resolve(v ssa.Value) ssa.Value {
 type shaper struct {
 	p     *pathInfo
 	depth int
+	// inl maps a call instruction to the shape of the helper path chosen for it
+	inl map[*ssa.Call]shape
 }
 
 func (s *shaper) slice(v ssa.Value) shape {
@@ -201,6 +212,9 @@ func (s *shaper) slice(v ssa.Value) shape {
 	case *ssa.MakeSlice:
 		return s.made(x, x.Len)
 	case *ssa.Call:
+		if sh, ok := s.inl[x]; ok {
+			return append(shape{}, sh...)
+		}
 		if bi, ok := x.Call.Value.(*ssa.Builtin); ok && bi.Name() == "append" && len(x.Call.Args) == 2 {
 			return append(s.slice(x.Call.Args[0]), s.slice(x.Call.Args[1])...)
 		}
@@ -575,4 +589,96 @@ func cmpBound(bo *ssa.BinOp, taken bool) (v ssa.Value, lo, hi *int64, ok bool) {
 		return x, p(k), nil, true
 	}
 	return nil, nil, nil, false
+}
+
+
+// ---- inlining of byte-producing helpers ----
+
+// shapesWithHelpers computes, for one path of f, the shapes of value v with every static call to
+// a function of gosk that returns a single []byte replaced by the shapes of that function's own
+// paths (one result per combination). The returned paths carry the helper's blocks, guards and
+// the parameter bindings, so that guards and displacement arithmetic inside the helper are read
+// in the caller's terms. Extracting an encoder into a helper must not change a verdict.
+type shapedPath struct {
+	Shape shape
+	Path  pathInfo
+}
+
+func shapesWithHelpers(p pathInfo, v ssa.Value, depth int) []shapedPath {
+	base := (&shaper{p: &p}).slice(v)
+	if depth <= 0 {
+		return []shapedPath{{base, p}}
+	}
+	// find the first opaque element produced by an inlinable call on this path
+	var call *ssa.Call
+	for _, e := range base {
+		if e.Kind == bOpaque && e.Fn != nil && inlinableBytesHelper(e.Fn) {
+			call = findCallOnPath(&p, e.Fn)
+			if call != nil {
+				break
+			}
+		}
+	}
+	if call == nil {
+		return []shapedPath{{base, p}}
+	}
+	callee := call.Call.StaticCallee()
+	cpaths, ok := enumPaths(callee, 256)
+	if !ok {
+		return []shapedPath{{base, p}}
+	}
+	var out []shapedPath
+	for _, q := range cpaths {
+		if len(q.Ret.Results) != 1 {
+			continue
+		}
+		np := pathInfo{Ret: p.Ret, Subst: map[ssa.Value]ssa.Value{}}
+		np.Blocks = append(append([]*ssa.BasicBlock{}, p.Blocks...), q.Blocks...)
+		np.Guards = append(append([]guard{}, p.Guards...), q.Guards...)
+		for k, a := range p.Subst {
+			np.Subst[k] = a
+		}
+		for i, prm := range callee.Params {
+			if i < len(call.Call.Args) {
+				np.Subst[prm] = call.Call.Args[i]
+			}
+		}
+		// the helper's own result on its path q, read with the combined bindings
+		hs := (&shaper{p: &np}).slice(q.Ret.Results[0])
+		// nested helpers inside the helper / further helpers in the caller
+		sub := shapesWithHelpersInl(np, v, map[*ssa.Call]shape{call: hs}, depth-1)
+		out = append(out, sub...)
+	}
+	if len(out) == 0 {
+		return []shapedPath{{base, p}}
+	}
+	return out
+}
+
+func shapesWithHelpersInl(p pathInfo, v ssa.Value, inl map[*ssa.Call]shape, depth int) []shapedPath {
+	sh := (&shaper{p: &p, inl: inl}).slice(v)
+	return []shapedPath{{sh, p}}
+}
+
+func inlinableBytesHelper(f *ssa.Function) bool {
+	if f == nil || f.Pkg == nil || len(f.Blocks) == 0 || !strings.HasPrefix(f.Pkg.Pkg.Path(), modPath) {
+		return false
+	}
+	res := f.Signature.Results()
+	if res.Len() != 1 {
+		return false
+	}
+	sl, ok := res.At(0).Type().Underlying().(*types.Slice)
+	return ok && isByte(sl.Elem())
+}
+
+func findCallOnPath(p *pathInfo, callee *ssa.Function) *ssa.Call {
+	for _, b := range p.Blocks {
+		for _, in := range b.Instrs {
+			if call, ok := in.(*ssa.Call); ok && call.Call.StaticCallee() == callee {
+				return call
+			}
+		}
+	}
+	return nil
 }
